@@ -220,7 +220,46 @@ func checkC11(e *RunEnv) *CheckResult {
 		CheckTrans: c11Trans,
 		CheckState: c11State,
 	}
-	return runSpec(e, spec, nil)
+	res := runSpec(e, spec, nil)
+	// second pass: the same journal machinery with the log lines written in a negative,
+	// non-whole-hour time zone (the zone offset is part of every journal line)
+	spec2 := *spec
+	spec2.Env = []string{"TZ=VERIFTZ:-210"}
+	spec2.Seeds = []Seed{{"S0", seedS0()}, {"S2", seedS2()}}
+	spec2.Depth = e.pick(2, 3)
+	res2 := runSpec(e, &spec2, nil)
+	if replayOnly() {
+		r1 := res.Rejudge
+		res.Rejudge = func(v *Violation) []Violation {
+			for _, x := range v.Env {
+				if strings.HasPrefix(x, "TZ=VERIFTZ:") {
+					return res2.Rejudge(v)
+				}
+			}
+			return r1(v)
+		}
+		return res
+	}
+	res.Violations = append(res.Violations, res2.Violations...)
+	for _, k := range []string{"states", "transitions", "traces_validated_against_impl", "evaluations", "distinct_nontrivial", "probes"} {
+		a, _ := res.Coverage[k].(int)
+		b, _ := res2.Coverage[k].(int)
+		res.Coverage[k] = a + b
+	}
+	res.Coverage["negative_fractional_zone_pass_states"] = res2.Coverage["states"]
+	if ex, _ := res2.Coverage["exhaustive"].(bool); !ex {
+		res.Coverage["exhaustive"] = false
+	}
+	r1 := res.Rejudge
+	res.Rejudge = func(v *Violation) []Violation {
+		for _, x := range v.Env {
+			if strings.HasPrefix(x, "TZ=VERIFTZ:") {
+				return res2.Rejudge(v)
+			}
+		}
+		return r1(v)
+	}
+	return res
 }
 
 // seedChain: n commits on main (journal of n entries).
